@@ -6,7 +6,7 @@ import sys
 import time
 from collections import Counter
 from pathlib import Path
-from .tools import VERIF, seed, log
+from .tools import VERIF, OUT, seed, log
 
 KNOWN = VERIF / "known_findings.jsonl"
 
@@ -71,7 +71,7 @@ class Check:
         if any(v[0] == sig for v in self.violations):
             self.count("duplicate_violations")
             return True
-        d = VERIF / "replays" / self.pid
+        d = OUT / "replays" / self.pid
         d.mkdir(parents=True, exist_ok=True)
         body = {"property": self.pid, "signature": sig, "what": what, "seed": self.seed, "tier": self.tier,
                 "witness": witness}
@@ -110,8 +110,8 @@ class Check:
         }
         # the schema wants >= 2 for exploration-style evidence; an inconclusive run must not
         # pretend: keep the measured number, the verdict field and exit code say what happened.
-        evp = VERIF / "evidence" / f"{self.pid}.json"
-        evp.parent.mkdir(exist_ok=True)
+        evp = OUT / "evidence" / f"{self.pid}.json"
+        evp.parent.mkdir(parents=True, exist_ok=True)
         evp.write_text(json.dumps(ev, indent=1, default=str, ensure_ascii=False))
         for sig, (what, c) in self.known_hits.items():
             print(f"KNOWN-FINDING: property={self.pid} {what} [signature={sig}; seen {c}x]")
